@@ -79,6 +79,7 @@ type miscGoAway struct {
 	Code   http2.ErrCode
 	SeqW   uint64
 	SeqD   uint64 // delivered to the client (0: never)
+	NsW    int64
 }
 
 // miscPing: a PING the server wrote (Ack=false) or a PING ack of the client
@@ -88,6 +89,7 @@ type miscPing struct {
 	Ack  bool
 	Data [8]byte
 	Seq  uint64
+	Ns   int64
 }
 
 type miscSK struct {
@@ -142,7 +144,7 @@ func (mw *miscWire) sink(f *tap.Frame) {
 				st.OpenDel = f.Seq
 			}
 		case f.Type == http2.FramePing && f.From == 'c' && f.Ack():
-			mw.pings = append(mw.pings, miscPing{Conn: f.Conn, Ack: true, Data: f.PingData, Seq: f.Seq})
+			mw.pings = append(mw.pings, miscPing{Conn: f.Conn, Ack: true, Data: f.PingData, Seq: f.Seq, Ns: f.SimNs})
 		case f.Type == http2.FrameGoAway && f.From == 's':
 			for _, g := range mw.goaways {
 				if g.Conn == f.Conn && g.SeqD == 0 {
@@ -197,11 +199,11 @@ func (mw *miscWire) sink(f *tap.Frame) {
 		}
 	case http2.FramePing:
 		if f.From == 's' && !f.Ack() {
-			mw.pings = append(mw.pings, miscPing{Conn: f.Conn, Data: f.PingData, Seq: f.Seq})
+			mw.pings = append(mw.pings, miscPing{Conn: f.Conn, Data: f.PingData, Seq: f.Seq, Ns: f.SimNs})
 		}
 	case http2.FrameGoAway:
 		if f.From == 's' {
-			mw.goaways = append(mw.goaways, &miscGoAway{Conn: f.Conn, LastID: f.LastStreamID, Code: f.ErrCode, SeqW: f.Seq})
+			mw.goaways = append(mw.goaways, &miscGoAway{Conn: f.Conn, LastID: f.LastStreamID, Code: f.ErrCode, SeqW: f.Seq, NsW: f.SimNs})
 		}
 	}
 }
@@ -342,9 +344,15 @@ func miscTameNet(s *Scenario) {
 	}
 }
 
-// drainPingTimedOut: the server wrote the final GOAWAY g of a graceful drain
-// without having read the acknowledgement of the PING it sent right after the
-// heads-up GOAWAY, i.e. its wait for the round trip timed out.
+// miscDrainWaitNs is how long grpc-go's server waits for the acknowledgement
+// of its drain PING before it sends the final GOAWAY anyway. It is used only
+// to give violations that match a recorded defect their own oracle name.
+const miscDrainWaitNs = 5000000000
+
+// drainPingTimedOut: the acknowledgement of the PING the server sent right
+// after the heads-up GOAWAY of a graceful drain was not read by the server
+// within the server's waiting time, i.e. the final GOAWAY g was triggered by
+// the timeout.
 func (mw *miscWire) drainPingTimedOut(g *miscGoAway) bool {
 	var headsUp *miscGoAway
 	for _, h := range mw.goaways {
@@ -361,7 +369,7 @@ func (mw *miscWire) drainPingTimedOut(g *miscGoAway) bool {
 		}
 		// the drain ping: first server PING after the heads-up GOAWAY
 		for _, a := range mw.pings {
-			if a.Conn == g.Conn && a.Ack && a.Data == p.Data && a.Seq > p.Seq && a.Seq < g.SeqW {
+			if a.Conn == g.Conn && a.Ack && a.Data == p.Data && a.Seq > p.Seq && a.Ns-headsUp.NsW < miscDrainWaitNs {
 				return false
 			}
 		}
